@@ -77,6 +77,10 @@ var c03SDLAdversarial = []string{
 }
 
 var c03ZooAdversarial = []string{
+	// one response key selected twice with lists of different lengths behind it (arguments differ), in both orders
+	`{ x: firstN(n: 1) { id } x: firstN(n: 3) { size } }`, `{ x: firstN(n: 4) { id } x: firstN(n: 1) { size } }`,
+	`{ x: firstN(n: 2) { id } ... on Query { x: firstN(n: 5) { tags } } self { x: items { id } x: firstN(n: 0) { id } } }`,
+	`{ x: items { id } x: things { ... on Item { size } } x: nodes { id } }`,
 	// one object type served by a pointer, by a struct value and by another Go type, each with a method for the field
 	`{ account { name greeting(prefix: "hi") } accountVal { name greeting(prefix: "hi") } }`,
 	`{ accountVal { greeting(prefix: "a") } account { greeting(prefix: "b") } }`,
